@@ -113,7 +113,7 @@ def Good (sc : Scope) (inLoop buf cv cb : Bool) : Tmpl → Bool
   | .block _ _ _ _ => false
   | .include_ _ => false
   | .call e _ body =>
-    GoodE inLoop true cv e && GoodCB { sc with top := false } body && Good (bodyScope sc body) false false true true body
+    GoodE inLoop true cv e && GoodCB { sc with top := false, cd := false } body && Good (bodyScope sc body) false false true true body
 /-- the `<%def>`s written into the `ccall` of a `<%call>` that sits in scope `sc`: direct children only -/
 def GoodCB (sc : Scope) : Tmpl → Bool
   | .seq a b => GoodCB sc a && GoodCB sc b
@@ -163,7 +163,7 @@ inductive FunRel : Fun → Spec.SFun → Prop
              ⟨ps, fl, body, kind, mod⟩
   /-- `body()` of a `<%call>`: no frame of its own, `caller` is the closure variable of `ccall(caller)` -/
   | body (sc : Scope) (args : List Name) (body : Tmpl) (mod : Nat) :
-      Good (bodyScope sc body) false false true true body = true → GoodCB { sc with top := false } body = true →
+      Good (bodyScope sc body) false false true true body = true → GoodCB { sc with top := false, cd := false } body = true →
       FunRel (bodyFun sc args body) ⟨args, noFlags, body, .body, mod⟩
 
 /-- closures reachable by name: generated code of the same callable, same module, never a `body()` -/
@@ -173,9 +173,9 @@ def CloRel (clo : Clo) (sf : Spec.SFun) : Prop := FunRel clo.fn sf ∧ clo.mod =
     `body` (name 0); on the specification side `body` first -/
 def LayerRel (layer : Layer) (sl : Spec.SLayer) : Prop :=
   ∃ (sc : Scope) (bargs : List Name) (body : Tmpl),
-    layer.funs = collectDefs (callDefs { sc with top := false } body) ++ [(0, bodyFun sc bargs body)] ∧
+    layer.funs = collectDefs (callDefs { sc with top := false, cd := false } body) ++ [(0, bodyFun sc bargs body)] ∧
     sl = (0, ⟨bargs, noFlags, body, .body, layer.mod⟩) :: Spec.callDefsOf layer.mod body ∧
-    Good (bodyScope sc body) false false true true body = true ∧ GoodCB { sc with top := false } body = true
+    Good (bodyScope sc body) false false true true body = true ∧ GoodCB { sc with top := false, cd := false } body = true
 
 /-- `caller` namespaces: layer by layer -/
 inductive NSRel : NS → Spec.SNS → Prop
